@@ -58,51 +58,44 @@ fn rsplit_body<const N: usize>(s: &SymStr<N>) {
 
 //# {"id":"c14_nest_type_alpha3","props":["C14"],"tier":"quick","cap":1200,"bound":"every valid class name of length 1..=3 over the alphabet 0 1 a C _ / $ ; unwind 6","z":["stubbing"],"fns":["dukenest::nests_mapper_run::NestTypeA::new","dukenest::nester_jar::strip_local_class_prefix"]}
 //# {"id":"c14_rsplit_alpha4","props":["C14"],"tier":"quick","cap":1500,"bound":"every valid class name of length 1..=4 over the alphabet 0 1 a C _ / $ ; unwind 7","z":["stubbing"],"fns":["dukenest::nests_mapper_run::rsplit_underscore"]}
-//# {"id":"c14_inner_name_cases","props":["C14"],"tier":"quick","cap":1500,"bound":"inner_name on nest class names {Foo, Foo$Bar, Foo$1Bar} x inner names {Bar, 1Bar, 12, Baz} x mapped names {M, p/M, p/C_7, C_x} chosen symbolically; unwind 12","z":["stubbing"],"fns":["dukenest::nests_mapper_run::{inner_name,construct_inner_name_from_anonymous_number}"]}
+//# {"id":"c14_inner_name_cases","props":["C14"],"tier":"quick","cap":1500,"bound":"inner_name on nest class names {Foo, Foo$Bar, Foo$1Bar} x inner names {Bar, 1Bar, 12, Baz} x mapped names {M, p/M, p/C_7, C_x} chosen symbolically; unwind 12","z":["stubbing"],"lib":"verif","fns":["dukenest::nests_mapper_run::{inner_name,construct_inner_name_from_anonymous_number}"]}
 //# {"id":"c14_nest_type_alpha5","props":["C14"],"tier":"thorough","cap":3000,"bound":"every valid class name of length 1..=5 over the alphabet 0 1 a C _ / $ ; unwind 8","z":["stubbing"],"fns":["NestTypeA::new","strip_local_class_prefix"]}
 proofs! {
 	#[cfg_attr(kani, kani::unwind(6))]
-	#[cfg_attr(kani, kani::stub(std::alloc::alloc, crate::hstubs::alloc_stub))]
-	#[cfg_attr(kani, kani::stub(std::alloc::alloc_zeroed, crate::hstubs::alloc_zeroed_stub))]
-	#[cfg_attr(kani, kani::stub(std::alloc::realloc, crate::hstubs::realloc_stub))]
-	#[cfg_attr(kani, kani::stub(std::alloc::dealloc, crate::hstubs::dealloc_stub))]
 	fn c14_nest_type_alpha3() { let s = SymStr::<3>::over(NEST_ALPHABET, 1, 3); nest_type_body(&s); }
 	#[cfg_attr(kani, kani::unwind(8))]
-	#[cfg_attr(kani, kani::stub(std::alloc::alloc, crate::hstubs::alloc_stub))]
-	#[cfg_attr(kani, kani::stub(std::alloc::alloc_zeroed, crate::hstubs::alloc_zeroed_stub))]
-	#[cfg_attr(kani, kani::stub(std::alloc::realloc, crate::hstubs::realloc_stub))]
-	#[cfg_attr(kani, kani::stub(std::alloc::dealloc, crate::hstubs::dealloc_stub))]
 	fn c14_nest_type_alpha5() { let s = SymStr::<5>::over(NEST_ALPHABET, 1, 5); nest_type_body(&s); }
 	#[cfg_attr(kani, kani::unwind(7))]
-	#[cfg_attr(kani, kani::stub(std::alloc::alloc, crate::hstubs::alloc_stub))]
-	#[cfg_attr(kani, kani::stub(std::alloc::alloc_zeroed, crate::hstubs::alloc_zeroed_stub))]
-	#[cfg_attr(kani, kani::stub(std::alloc::realloc, crate::hstubs::realloc_stub))]
-	#[cfg_attr(kani, kani::stub(std::alloc::dealloc, crate::hstubs::dealloc_stub))]
 	fn c14_rsplit_alpha4() { let s = SymStr::<4>::over(NEST_ALPHABET, 1, 4); rsplit_body(&s); }
 
 	#[cfg_attr(kani, kani::unwind(12))]
-	#[cfg_attr(kani, kani::stub(std::alloc::alloc, crate::hstubs::alloc_stub))]
-	#[cfg_attr(kani, kani::stub(std::alloc::alloc_zeroed, crate::hstubs::alloc_zeroed_stub))]
-	#[cfg_attr(kani, kani::stub(std::alloc::realloc, crate::hstubs::realloc_stub))]
-	#[cfg_attr(kani, kani::stub(std::alloc::dealloc, crate::hstubs::dealloc_stub))]
 	fn c14_inner_name_cases() {
 		fn oc(s: &'static str) -> &'static ObjClassNameSlice { unsafe { ObjClassNameSlice::from_inner_unchecked(JavaStr::from_str(s)) } }
 		let class = match sym::u8_in(0, 2) { 0 => "Foo", 1 => "Foo$Bar", _ => "Foo$1Bar" };
 		let inner = match sym::u8_in(0, 3) { 0 => "Bar", 1 => "1Bar", 2 => "12", _ => "Baz" };
 		let mapped = match sym::u8_in(0, 3) { 0 => "M", 1 => "p/M", 2 => "p/C_7", _ => "C_x" };
 		let r = mapper::inner_name(oc(class), oc(inner), oc(mapped));
-		let simple = match mapped { "p/M" => "M", "p/C_7" => "C_7", m => m };
-		// documented three cases
-		let want: Result<String, ()> = match inner {
-			"12" => match simple { "C_7" => Ok("7".to_owned()), "C_x" => Err(()), _ => Ok("12".to_owned()) },
-			"1Bar" => if class.ends_with("Bar") { Ok(format!("1{simple}")) } else { Ok("1Bar".to_owned()) },
-			name => if class.ends_with(name) { Ok(simple.to_owned()) } else { Ok(name.to_owned()) },
+		let simple: &[u8] = match mapped { "p/M" => b"M", "p/C_7" => b"C_7", m => m.as_bytes() };
+		let ends_with_bar = class.len() > 3 && class.as_bytes()[class.len() - 3..] == *b"Bar";
+		// documented three cases; the expected name is `pre ++ post` (no heap, no formatting in the oracle)
+		let want: Result<(&[u8], &[u8]), ()> = match inner {
+			"12" => if simple.len() == 3 && simple[0] == b'C' && simple[1] == b'_' { if simple[2] == b'7' { Ok((b"7", b"")) } else { Err(()) } } else { Ok((b"12", b"")) },
+			"1Bar" => if ends_with_bar { Ok((b"1", simple)) } else { Ok((b"1Bar", b"")) },
+			"Bar" => if ends_with_bar { Ok((simple, b"")) } else { Ok((b"Bar", b"")) },
+			_ => Ok((b"Baz", b"")), // no class name above ends with Baz
 		};
 		match (&r, &want) {
-			(Ok(g), Ok(w)) => assert!(bytes_eq(g.as_inner().as_bytes(), w.as_bytes()), "inner_name differs from its three documented cases"),
+			(Ok(g), Ok((pre, post))) => {
+				let g = g.as_inner().as_bytes();
+				assert!(g.len() == pre.len() + post.len(), "inner_name differs from its three documented cases (length)");
+				let mut k = 0;
+				while k < g.len() { let w = if k < pre.len() { pre[k] } else { post[k - pre.len()] }; assert!(g[k] == w, "inner_name differs from its three documented cases"); k += 1; }
+			},
 			(Err(_), Err(())) => {},
 			_ => panic!("inner_name: error/success mismatch"),
 		}
-		core::mem::forget((r, want));
+		witness!(matches!(want, Err(())), "anonymous class mapped to a C_ name that is not a number");
+		witness!(inner == "1Bar" && ends_with_bar && simple.len() == 3, "local class renamed through the mapping");
+		core::mem::forget(r);
 	}
 }
